@@ -30,6 +30,7 @@ import io
 import json
 import random
 import tempfile
+import time
 from concurrent.futures import ThreadPoolExecutor
 from pathlib import Path
 
@@ -131,22 +132,25 @@ def script_from_model(hist: list[dict], idx: int) -> list[dict]:
     return out
 
 
-def model_run(ctx: Ctx, name: str, *, n: int, fam: str, maxlen: int, maxmut: int, scheme: str, export: bool,
-              nshards: int, invs: str, workers: int = 1, timeout: float = 3000) -> list[dict]:
-    """Run MC_PipelineCache on `nshards` TLC processes; returns the exported histories (deterministic: one worker per
-    process when exporting, the witness chosen per state depends on the search order)."""
-    def one(shard: int):
-        cfg = MCCFG.format(n=n, shard=shard, nshards=nshards, maxlen=maxlen, maxmut=maxmut, fam=fam,
-                           export="TRUE" if export else "FALSE", scheme=scheme, invs=invs)
-        return run_tlc("MC_PipelineCache", cfg, ctx.workdir(f"mc_{name}_{shard}"), workers=workers, heap="2g",
+def model_runs(ctx: Ctx, specs: list[dict], timeout: float = 3000) -> dict[str, list[dict]]:
+    """Run MC_PipelineCache for every spec {name, n, fam, maxlen, maxmut, scheme, export, nshards, invs}; all shards of
+    all specs share one pool of TLC processes (one worker each: with a VIEW the witness history kept per state depends
+    on the search order, a single worker makes the export deterministic).  Returns name -> exported histories."""
+    jobs = [(sp, shard) for sp in specs for shard in range(sp["nshards"])]
+
+    def one(job):
+        sp, shard = job
+        cfg = MCCFG.format(n=sp["n"], shard=shard, nshards=sp["nshards"], maxlen=sp["maxlen"], maxmut=sp["maxmut"],
+                           fam=sp["fam"], export="TRUE" if sp["export"] else "FALSE", scheme=sp["scheme"], invs=sp["invs"])
+        return run_tlc("MC_PipelineCache", cfg, ctx.workdir(f"mc_{sp['name']}_{shard}"), workers=1, heap="2g",
                        timeout=timeout, allow_violation=False)
-    hists: list[dict] = []
-    with ThreadPoolExecutor(max_workers=min(nshards, 8 if workers == 1 else 2)) as ex:
-        for shard, r in enumerate(ex.map(one, range(nshards))):
-            ctx.add_tlc(r, f"MC_PipelineCache {name} scheme={scheme} family={fam} MaxLen={maxlen} MaxMut={maxmut} "
-                           f"shard {shard}/{nshards}")
-            hists += [p for t, p in parse_prints(r.prints) if t == "HIST"]
-    return hists
+    out: dict[str, list[dict]] = {sp["name"]: [] for sp in specs}
+    with ThreadPoolExecutor(max_workers=16) as ex:
+        for (sp, shard), r in zip(jobs, ex.map(one, jobs)):
+            ctx.add_tlc(r, f"MC_PipelineCache {sp['name']} scheme={sp['scheme']} family={sp['fam']} MaxLen={sp['maxlen']} "
+                           f"MaxMut={sp['maxmut']} shard {shard}/{sp['nshards']}")
+            out[sp["name"]] += [p for t, p in parse_prints(r.prints) if t == "HIST"]
+    return out
 
 
 # ---- seeded random histories ------------------------------------------------------------------------------------------
@@ -271,14 +275,18 @@ def begin_of(evs: list[dict], reached: int) -> dict:
 
 
 def signature(tr: dict, reached: int, why: dict) -> dict:
+    """The classifying signature is what TLC said: the failed guard and, for a stale value, its cause."""
+    return {"check": "cache-history", "clause": why.get("clause", "unexplained"), "cause": why.get("cause", "none")}
+
+
+def features(tr: dict, reached: int) -> dict:
     evs = tr["ev"]
     e = evs[min(reached, len(evs)) - 1]
     b = begin_of(evs, reached)
     outs = {o for f in tr["desc"]["funcs"] for o in f["outputs"]}
-    return {"check": "cache-history", "clause": why.get("clause", "unexplained"), "cause": why.get("cause", "none"),
-            "event": e["e"], "mode": b["mode"], "cache_type": tr["cache_type"],
+    return {"event": e["e"], "mode": b["mode"], "cache_type": tr["cache_type"],
             "supplied_intermediate": any(n in outs for n, _ in b["kw"]),
-            "mutated_before": any(x["e"] == "mutate" for x in evs[:reached])}
+            "mutations_before": [x["mut"]["kind"] for x in evs[:reached] if x["e"] == "mutate"]}
 
 
 def validate(ctx: Ctx, traces: list[dict], name: str, report: bool = True) -> dict[int, dict]:
@@ -299,7 +307,8 @@ def validate(ctx: Ctx, traces: list[dict], name: str, report: bool = True) -> di
         ctx.violation(sig, f"cached pipeline history not explained by PipelineCache.tla at event {reached} "
                            f"({sig['clause']}, cause {sig['cause']}): {json.dumps(e)[:400]}",
                       {"desc": tr["desc"], "cache_type": tr["cache_type"], "cache_kwargs": tr["cache_kwargs"],
-                       "script": tr["script"], "rejected_event_index": reached, "events": evs[k0:reached]})
+                       "script": tr["script"], "rejected_event_index": reached, "features": features(tr, reached),
+                       "events": evs[k0:reached]})
     return res
 
 
@@ -379,21 +388,23 @@ def run(ctx: Ctx) -> None:
     disk_root = ctx.workdir("disk")
 
     # 1. layer B: design check of the repaired scheme, exhibition of the defects of the scheme as it is
+    t0 = time.time()
+    rep_invs = "HCoherent HCorrect HCutsAgree"
     if quick:
-        asis = model_run(ctx, "asis", n=2, fam="f2", maxlen=3, maxmut=1, scheme="asis", export=True, nshards=8, invs="")
-        model_run(ctx, "rep", n=2, fam="f2", maxlen=3, maxmut=1, scheme="repaired", export=False, nshards=8,
-                  invs="HCoherent HCorrect HCutsAgree")
-        budget = 700
+        specs = [dict(name="asis", n=2, fam="q2", maxlen=3, maxmut=1, scheme="asis", export=True, nshards=8, invs=""),
+                 dict(name="rep", n=2, fam="q2", maxlen=3, maxmut=1, scheme="repaired", export=False, nshards=8, invs=rep_invs)]
+        budget = 500
     else:
-        asis = model_run(ctx, "asis", n=2, fam="f2", maxlen=4, maxmut=2, scheme="asis", export=True, nshards=16, invs="")
-        asis += model_run(ctx, "asis3", n=3, fam="f3", maxlen=3, maxmut=1, scheme="asis", export=True, nshards=16, invs="")
-        model_run(ctx, "rep", n=2, fam="f2", maxlen=4, maxmut=2, scheme="repaired", export=False, nshards=16,
-                  invs="HCoherent HCorrect HCutsAgree")
-        model_run(ctx, "rep3", n=3, fam="f3", maxlen=3, maxmut=1, scheme="repaired", export=False, nshards=16,
-                  invs="HCoherent HCorrect HCutsAgree")
-        model_run(ctx, "repu2", n=2, fam="u2", maxlen=3, maxmut=1, scheme="repaired", export=False, nshards=16,
-                  invs="HCoherent HCorrect HCutsAgree")
-        budget = 9000
+        specs = [dict(name="asis", n=2, fam="f2", maxlen=4, maxmut=1, scheme="asis", export=True, nshards=16, invs=""),
+                 dict(name="asis3", n=3, fam="f3", maxlen=3, maxmut=1, scheme="asis", export=True, nshards=16, invs=""),
+                 dict(name="rep", n=2, fam="f2", maxlen=4, maxmut=1, scheme="repaired", export=False, nshards=16, invs=rep_invs),
+                 dict(name="rep3", n=3, fam="f3", maxlen=3, maxmut=1, scheme="repaired", export=False, nshards=16, invs=rep_invs),
+                 dict(name="repu2", n=2, fam="u2", maxlen=3, maxmut=1, scheme="repaired", export=False, nshards=16, invs=rep_invs)]
+        budget = 8000
+    exported = model_runs(ctx, specs)
+    asis = [h for sp in specs if sp["export"] for h in exported[sp["name"]]]
+    ctx.extra["model_scopes"] = [{k: sp[k] for k in ("name", "fam", "maxlen", "maxmut", "scheme")} for sp in specs]
+    phase = {"model_checking": round(time.time() - t0, 1)}
     if not asis:
         raise MachineryError("no histories exported by the model")
     fams: dict[str, int] = {}
@@ -408,6 +419,7 @@ def run(ctx: Ctx) -> None:
     if not ctx.extra["model_hits_explored"]:
         raise MachineryError("the model never took a cache hit")
 
+    t0 = time.time()
     # 2a. replay a deterministic selection of the exported histories on real twins
     asis.sort(key=lambda h: digest(h))
     by_verdict: dict[str, list[dict]] = {}
@@ -459,9 +471,13 @@ def run(ctx: Ctx) -> None:
                               "calls_outside_property": sum(1 for t in traces for e in t["ev"] if e["e"] == "outside"),
                               "by_cache_type": {c: sum(1 for t in traces if t["cache_type"] == c) for c in CACHE_TYPES}}
 
+    phase["driving_real_pipelines"] = round(time.time() - t0, 1)
+    t0 = time.time()
     # 3. TLC decides
     validate(ctx, traces, "hist")
     selftests(ctx)
+    phase["trace_validation_and_selftest"] = round(time.time() - t0, 1)
+    ctx.extra["phase_wall_s"] = phase
 
 
 def replay(rep: dict) -> int:
